@@ -26,7 +26,8 @@ type c18RealCase struct {
 	Dialers    int    `json:"dialers"`
 	DialAtUs   []int  `json:"dialAtUs"` // per dialer: microseconds after the start
 	CloseAtUs  int    `json:"closeAtUs"`
-	Speak      bool   `json:"speak"` // dialers send a new-session envelope
+	Speak      bool   `json:"speak"`            // dialers send a new-session envelope
+	Cycles     int    `json:"cycles,omitempty"` // > 1: the same Server value is served and closed that many times (same peers each time)
 }
 
 type c18RealObs struct {
@@ -67,102 +68,117 @@ func runC18Real(c *c18RealCase) *c18RealObs {
 	}
 	cfg.Register = func(_ context.Context, n lime.Node, _ *lime.ServerChannel) (lime.Node, error) { return n, nil }
 	server := lime.NewServer(cfg, &lime.EnvelopeMux{}, lime.NewBoundListener(l, addr))
-	done := make(chan error, 1)
-	go func() { done <- server.ListenAndServe() }()
-	// wait for the port to answer
-	up := false
-	for i := 0; i < 200; i++ {
-		if cn, err := net.DialTimeout("tcp", addr.String(), 200*time.Millisecond); err == nil {
-			_ = cn.Close()
-			up = true
-			break
-		}
-		select {
-		case err := <-done:
-			obs.Note = "skip: server did not start: " + fmt.Sprint(err)
-			return obs
-		default:
-		}
-		time.Sleep(5 * time.Millisecond)
-	}
-	if !up {
-		_ = server.Close()
-		obs.Note = "skip: port never answered"
-		return obs
+	cycles := c.Cycles
+	if cycles < 1 {
+		cycles = 1
 	}
 	var mu sync.Mutex
-	var wg sync.WaitGroup
-	start := time.Now()
-	for i := 0; i < c.Dialers; i++ {
-		wg.Add(1)
-		go func(i int) {
-			defer wg.Done()
-			time.Sleep(time.Until(start.Add(time.Duration(c.DialAtUs[i]) * time.Microsecond)))
-			if c.Kind == "ws" {
-				d := websocket.Dialer{Subprotocols: []string{"lime"}, HandshakeTimeout: 2 * time.Second}
-				wc, _, err := d.Dial(fmt.Sprintf("ws://127.0.0.1:%d", port), nil)
+	for cycle := 0; cycle < cycles; cycle++ {
+		done := make(chan error, 1)
+		go func() {
+			if p := Protect(func() { done <- server.ListenAndServe() }); p != "" {
+				done <- errors.New("panic: " + p)
+			}
+		}()
+		// wait for the port to answer
+		up := false
+		for i := 0; i < 200; i++ {
+			if cn, err := net.DialTimeout("tcp", addr.String(), 200*time.Millisecond); err == nil {
+				_ = cn.Close()
+				up = true
+				break
+			}
+			select {
+			case err := <-done:
+				obs.Note = "skip: server did not start: " + fmt.Sprint(err)
+				return obs
+			default:
+			}
+			time.Sleep(5 * time.Millisecond)
+		}
+		if !up {
+			_ = server.Close()
+			obs.Note = "skip: port never answered"
+			return obs
+		}
+		var wg sync.WaitGroup
+		start := time.Now()
+		for i := 0; i < c.Dialers; i++ {
+			wg.Add(1)
+			go func(i int) {
+				defer wg.Done()
+				time.Sleep(time.Until(start.Add(time.Duration(c.DialAtUs[i]) * time.Microsecond)))
+				if c.Kind == "ws" {
+					d := websocket.Dialer{Subprotocols: []string{"lime"}, HandshakeTimeout: 2 * time.Second}
+					wc, _, err := d.Dial(fmt.Sprintf("ws://127.0.0.1:%d", port), nil)
+					if err != nil {
+						return
+					}
+					defer wc.Close()
+					mu.Lock()
+					obs.Connected++
+					mu.Unlock()
+					if c.Speak {
+						_ = wc.WriteMessage(websocket.TextMessage, []byte(`{"state":"new"}`))
+					}
+					_ = wc.SetReadDeadline(time.Now().Add(8 * time.Second))
+					_, msg, err := wc.ReadMessage()
+					mu.Lock()
+					defer mu.Unlock()
+					var ne net.Error
+					switch {
+					case len(msg) > 0:
+						obs.Served++
+					case errors.As(err, &ne) && ne.Timeout():
+						obs.Stranded++
+					default:
+						obs.Ended++
+					}
+					return
+				}
+				cn, err := net.DialTimeout("tcp", addr.String(), time.Second)
 				if err != nil {
 					return
 				}
-				defer wc.Close()
+				defer cn.Close()
 				mu.Lock()
 				obs.Connected++
 				mu.Unlock()
 				if c.Speak {
-					_ = wc.WriteMessage(websocket.TextMessage, []byte(`{"state":"new"}`))
+					_, _ = cn.Write([]byte(`{"state":"new"}` + "\n"))
 				}
-				_ = wc.SetReadDeadline(time.Now().Add(8 * time.Second))
-				_, msg, err := wc.ReadMessage()
+				// a silent peer in the middle of its handshake is let go when the server's blocked Receive notices the cancellation: one I/O poll (5 s)
+				_ = cn.SetReadDeadline(time.Now().Add(8 * time.Second))
+				buf := make([]byte, 512)
+				n, err := cn.Read(buf)
 				mu.Lock()
 				defer mu.Unlock()
 				var ne net.Error
 				switch {
-				case len(msg) > 0:
+				case n > 0:
 					obs.Served++
 				case errors.As(err, &ne) && ne.Timeout():
 					obs.Stranded++
 				default:
 					obs.Ended++
 				}
-				return
+			}(i)
+		}
+		time.Sleep(time.Until(start.Add(time.Duration(c.CloseAtUs) * time.Microsecond)))
+		_ = server.Close()
+		select {
+		case err := <-done:
+			if e := fmt.Sprint(err); obs.ServeErr == "" || e != lime.ErrServerClosed.Error() {
+				obs.ServeErr = e
 			}
-			cn, err := net.DialTimeout("tcp", addr.String(), time.Second)
-			if err != nil {
-				return
-			}
-			defer cn.Close()
-			mu.Lock()
-			obs.Connected++
-			mu.Unlock()
-			if c.Speak {
-				_, _ = cn.Write([]byte(`{"state":"new"}` + "\n"))
-			}
-			// a silent peer in the middle of its handshake is let go when the server's blocked Receive notices the cancellation: one I/O poll (5 s)
-			_ = cn.SetReadDeadline(time.Now().Add(8 * time.Second))
-			buf := make([]byte, 512)
-			n, err := cn.Read(buf)
-			mu.Lock()
-			defer mu.Unlock()
-			var ne net.Error
-			switch {
-			case n > 0:
-				obs.Served++
-			case errors.As(err, &ne) && ne.Timeout():
-				obs.Stranded++
-			default:
-				obs.Ended++
-			}
-		}(i)
+		case <-time.After(10 * time.Second):
+			obs.ServeErr = "ListenAndServe did not return"
+		}
+		wg.Wait()
+		if obs.ServeErr != lime.ErrServerClosed.Error() {
+			break
+		}
 	}
-	time.Sleep(time.Until(start.Add(time.Duration(c.CloseAtUs) * time.Microsecond)))
-	_ = server.Close()
-	select {
-	case err := <-done:
-		obs.ServeErr = fmt.Sprint(err)
-	case <-time.After(10 * time.Second):
-		obs.ServeErr = "ListenAndServe did not return"
-	}
-	wg.Wait()
 	for i := 0; i < 40; i++ {
 		if obs.Left, obs.LeftStack = serverGoroutines(); obs.Left == 0 {
 			break
@@ -175,6 +191,9 @@ func runC18Real(c *c18RealCase) *c18RealObs {
 func judgeC18Real(c *c18RealCase, obs *c18RealObs, o *Outcome) {
 	o.Class("real-listener=" + c.Kind)
 	o.Class(fmt.Sprintf("connBuffer=%d", c.ConnBuffer))
+	if c.Cycles > 1 {
+		o.Class("served-again-after-close")
+	}
 	if obs.Note != "" {
 		o.Class("skipped")
 		return
@@ -210,14 +229,17 @@ func TestC18RealAccept(t *testing.T) {
 			Dialers:    rapid.IntRange(1, 24).Draw(rt, "dialers"),
 			Speak:      rapid.IntRange(0, 4).Draw(rt, "speak") > 0,
 		}
-		c.CloseAtUs = rapid.IntRange(0, 3000).Draw(rt, "closeAt")
+		if rapid.IntRange(0, 3).Draw(rt, "again") == 0 {
+			c.Cycles = 2
+		}
+		c.CloseAtUs = rapid.IntRange(200, 6000).Draw(rt, "closeAt")
 		// half of the cases: everybody dials within a few hundred microseconds before the closing (the queues are full then)
 		burst := rapid.Bool().Draw(rt, "burst")
 		for i := 0; i < c.Dialers; i++ {
 			if burst {
 				c.DialAtUs = append(c.DialAtUs, max(0, c.CloseAtUs-rapid.IntRange(0, 600).Draw(rt, "before")))
 			} else {
-				c.DialAtUs = append(c.DialAtUs, rapid.IntRange(0, 3500).Draw(rt, "dialAt"))
+				c.DialAtUs = append(c.DialAtUs, rapid.IntRange(0, c.CloseAtUs+300).Draw(rt, "dialAt"))
 			}
 		}
 		o := &Outcome{}
